@@ -281,6 +281,9 @@ def check(prog, rep):
     rule_completion_reads_occupied(prog, rep)
     rep.guarded(rule_water_completion, prog, rep)
     rep.guarded(rule_carboxyl_names, prog, rep)
+    from . import shared
+    rep.guarded(shared.rule_decoration_columns_unused, prog, rep, "R11", "atoms are built from names, bonds and coordinates only: occupancy and temperature factor never choose a frame atom or a position",
+                ("create_atom",), (), 1, "the construction of added atoms")
 
 
 def rule_peptide_pointers(prog, rep, t, rid="R6"):
